@@ -5,7 +5,7 @@ calc-fisher-matrix-total-size, qmpt-mse-linear-analytical-qoperation (owner C19)
 calc-fisher-matrix-mixed-outcome-counts (owner C08).  On a tree without one of them the defect is reported again.
 
 Translator tie (regen_model): gen/c19_py2coq.py regenerates the loop / index / guard / dispatch skeletons of the anchored functions from
-the current source on every run; coq/gen/C19_Equiv.v proves them equal to the hand-written model (18 theorems, counted as obligations).
+the current source on every run; coq/gen/C19_Equiv.v proves them equal to the hand-written model (26 theorems, counted as obligations).
 
 Sub-checks
   helpers      matrix_util / data_analysis helper functions vs the extracted model (+ error branches)
@@ -19,6 +19,8 @@ Sub-checks
                LinearEstimator / convert_var_to_qoperation: the estimator is probed, its exact MSE computed from the
                (proved exact) covariance and compared with calc_mse_linear_analytical
   mixed        testers with unequal outcome counts: total covariance vs an independent numpy reference
+  big          float only (setups too large for exact rationals: qutrit POVMT / QMPT, two-qubit QST / POVMT, 4-outcome QMPT): analytical
+               values vs tr(L Sigma L^T) and tr(J L Sigma L^T J^T) from numpy's pinv and the probed Jacobian of convert_var_to_qoperation
   history      no hidden state: ONE tomography object is asked for sequences of true objects (A, neighbours at distance 1e-6..1e-9
                in both orders, exact copies, a far object) interleaved with two sample-size lists, both modes, QOperation /
                variable-array arguments and two call orders; every value must equal a fresh tomography object's value, the
